@@ -71,6 +71,33 @@ def norm(x):
     return x
 
 
+def scribble(x):
+    """The caller overwrites what a call handed back (arrays in place, lists and dicts emptied). Every call of the
+    Python classes returns freshly built values, so this must not be able to change what any later call returns."""
+    n = 0
+    if isinstance(x, np.ndarray):
+        if x.flags.writeable and x.size:
+            try:
+                x[...] = np.iinfo(x.dtype).max - 5 if np.issubdtype(x.dtype, np.integer) else 1
+                n += 1
+            except Exception:  # noqa: BLE001
+                pass
+    elif isinstance(x, dict):
+        for v in list(x.values()):
+            n += scribble(v)
+        x.clear()
+        n += 1
+    elif isinstance(x, list):
+        for v in x:
+            n += scribble(v)
+        x.clear()
+        n += 1
+    elif isinstance(x, tuple):
+        for v in x:
+            n += scribble(v)
+    return n
+
+
 def build_arg(a):
     if isinstance(a, dict) and "np" in a:
         return np.array(a["data"], dtype=a["np"])
@@ -482,6 +509,8 @@ def run_script(s, out):
                 kwargs = {k: build_arg(v) for k, v in c.get("kwargs", {}).items()}
                 got = getattr(obj, m)(*args, **kwargs)
             got_n = norm(got)
+            if (ci + len(s["calls"])) % 3 == 0:
+                out["returns_overwritten_by_caller"] += scribble(got)
             if m == "get_orders":
                 last_orders = got_n
             if m == "get_trades":
@@ -590,7 +619,7 @@ def run_script(s, out):
 
 def main():
     doc = json.load(open(sys.argv[1]))
-    out = {"executed": 0, "exceptions": 0, "mismatches": [], "layout_checks": 0, "asymmetric_layout_checks": 0, "dict_checks": 0, "dataframe_checks": 0, "scripts": 0, "errors": [], "self_oracle_checks": 0, "twin_divergences": 0, "alt_schedule_scripts": 0, "alt_unsettled_scripts": 0, "alt_stats": [], "alt_first_mismatch": None}
+    out = {"executed": 0, "exceptions": 0, "mismatches": [], "layout_checks": 0, "asymmetric_layout_checks": 0, "dict_checks": 0, "dataframe_checks": 0, "scripts": 0, "errors": [], "self_oracle_checks": 0, "twin_divergences": 0, "alt_schedule_scripts": 0, "alt_unsettled_scripts": 0, "alt_stats": [], "alt_first_mismatch": None, "returns_overwritten_by_caller": 0}
     if doc.get("doc_tables"):
         out["doc"] = doc_tables()
     for s in doc["scripts"]:
